@@ -40,6 +40,8 @@ func main() {
 	from := flag.Int("from", 0, "index of the first generated case (sharding)")
 	steps := flag.Int("steps", 10, "app mode: max extra steps per history")
 	in := flag.String("in", "", "replay: file of specs (JSON lines) instead of generating")
+	corpus := flag.Bool("corpus", false, "app mode: run the directed corpus (corpus.go) instead of generating")
+	sweep := flag.Bool("sweep", false, "app mode: run the exhaustive depth-2 call-shape sweep (corpus.go) instead of generating")
 	out := flag.String("out", "/dev/stdout", "output file (JSON lines)")
 	flag.Parse()
 
@@ -104,7 +106,19 @@ func main() {
 			for _, x := range e.eoas {
 				eoas = append(eoas, x.addr)
 			}
-			for i := *from; i < *from+*n; i++ {
+			if *sweep {
+				*corpus = true
+			}
+			if *corpus {
+				all := corpusSpecs(valStr, eoas)
+				if *sweep {
+					all = sweepSpecs(valStr, eoas)
+				}
+				for i := *from; i < *from+*n && i < len(all); i++ {
+					specs = append(specs, all[i])
+				}
+			}
+			for i := *from; i < *from+*n && !*corpus; i++ {
 				specs = append(specs, genSpec(root.Fork(uint64(1000000+i)), i, *steps, valStr, eoas))
 			}
 		}
